@@ -278,9 +278,15 @@ func (p *OneofFields) lazyInit() *OneofFields {
 			for _, f := range p.List {
 				// Field names and numbers are guaranteed to be unique.
 				p.byName[f.Name()] = f
-				p.byJSON[f.JSONName()] = f
-				p.byText[f.TextName()] = f
 				p.byNum[f.Number()] = f
+				// JSON and text names are not: like the message's own field
+				// list, resolve a duplicate key to the first field that has it.
+				if _, ok := p.byJSON[f.JSONName()]; !ok {
+					p.byJSON[f.JSONName()] = f
+				}
+				if _, ok := p.byText[f.TextName()]; !ok {
+					p.byText[f.TextName()] = f
+				}
 			}
 		}
 	})
